@@ -22,14 +22,14 @@ theorem cat_snoc_pop (cs : List Code) (p : Bool) :
     cat (cs ++ [popUnless p]) = .seq (cat cs) (popUnless p) ∨ True := Or.inr trivial
 
 mutual
-theorem emitG_disc (cfg : Cfg) (H : Hcfg cfg) : (e : Expr) → Disc cfg e
+theorem emitG_disc (cfg : Cfg) : (e : Expr) → Disc cfg e
   | .lit _ => by
       constructor <;> intro h <;> simp only [emitG, onlyIf, if_true, Bool.false_eq_true, if_false] <;> ht_chain
   | .ident c _ => ⟨fun h => by simp only [emitG]; exact emitIdentGet_t c h, fun h => by simp only [emitG]; exact emitIdentGet_f c h⟩
   | .this => by
       constructor <;> intro h <;> simp only [emitG, popUnless, if_true, Bool.false_eq_true, if_false] <;> ht_chain
   | .unary op e => by
-      have ih := emitG_disc cfg H e
+      have ih := emitG_disc cfg e
       have ft := foldOr_t (e := e) ih.1
       have ff := foldOr_f (e := e) ih.2
       constructor <;> intro h <;> cases op <;>
@@ -48,42 +48,42 @@ theorem emitG_disc (cfg : Cfg) (H : Hcfg cfg) : (e : Expr) → Disc cfg e
       constructor <;> intro h <;> cases c <;>
         simp only [emitG, onlyIf, popUnless, if_true, Bool.false_eq_true, if_false] <;> ht_chain
   | .deleteDot l _ => by
-      have ih := emitG_disc cfg H l
+      have ih := emitG_disc cfg l
       constructor <;> intro h <;> simp only [emitG, cat, popUnless, if_true, Bool.false_eq_true, if_false] <;>
         (refine HasHt.seq (ih.1 _) ?_; ht_chain)
   | .deleteIndex l m => by
-      have ihl := emitG_disc cfg H l
-      have ihm := emitG_disc cfg H m
+      have ihl := emitG_disc cfg l
+      have ihm := emitG_disc cfg m
       constructor <;> intro h <;> simp only [emitG, cat, popUnless, if_true, Bool.false_eq_true, if_false] <;>
         (refine HasHt.seq (ihl.1 _) (HasHt.seq (ihm.1 _) ?_); ht_chain)
   | .deleteCall e => by
-      have ih := emitG_disc cfg H e
+      have ih := emitG_disc cfg e
       constructor <;> intro h <;> simp only [emitG, onlyIf, if_true, Bool.false_eq_true, if_false] <;>
         (refine HasHt.seq (ih.2 _) ?_; ht_chain)
   | .deleteOther _ => by
       constructor <;> intro h <;> simp only [emitG, onlyIf, if_true, Bool.false_eq_true, if_false] <;> ht_chain
   | .updateId inc post c _ =>
       ⟨fun h => by simp only [emitG]; exact emitUnaryId_t cfg c post keeps1_prep (keeps1_inc inc) h,
-       fun h => by simp only [emitG]; exact emitUnaryId_f cfg H c post (keeps1_inc inc) h⟩
+       fun h => by simp only [emitG]; exact emitUnaryId_f cfg c post (keeps1_inc inc) h⟩
   | .updateDot inc post l _ => by
-      have ih := emitG_disc cfg H l
+      have ih := emitG_disc cfg l
       exact ⟨fun h => by simp only [emitG]; exact emitUnaryDot_t cfg post ih.1 keeps1_prep (keeps1_inc inc) h,
              fun h => by simp only [emitG]; exact emitUnaryDot_f cfg post ih.1 (keeps1_inc inc) h⟩
   | .updateIndex inc post l m => by
-      have ihl := emitG_disc cfg H l
-      have ihm := emitG_disc cfg H m
+      have ihl := emitG_disc cfg l
+      have ihm := emitG_disc cfg m
       exact ⟨fun h => by simp only [emitG]; exact emitUnaryIndex_t cfg post ihl.1 ihm.1 keeps1_prep (keeps1_inc inc) h,
              fun h => by simp only [emitG]; exact emitUnaryIndex_f cfg post ihl.1 ihm.1 (keeps1_inc inc) h⟩
   | .binary op l r => by
-      have ihl := emitG_disc cfg H l
-      have ihr := emitG_disc cfg H r
+      have ihl := emitG_disc cfg l
+      have ihr := emitG_disc cfg r
       have fl := foldOr_t (e := l) ihl.1
       have fr := foldOr_t (e := r) ihr.1
       constructor <;> intro h <;> simp only [emitG, cat, popUnless, if_true, Bool.false_eq_true, if_false] <;>
         (refine HasHt.seq (fl _) (HasHt.seq (fr _) ?_); ht_chain)
   | .logical op l r => by
-      have ihl := emitG_disc cfg H l
-      have ihr := emitG_disc cfg H r
+      have ihl := emitG_disc cfg l
+      have ihr := emitG_disc cfg r
       have flt := foldOr_t (e := l) ihl.1
       have frt := foldOr_t (e := r) ihr.1
       have frf := foldOr_f (e := r) ihr.2
@@ -119,9 +119,9 @@ theorem emitG_disc (cfg : Cfg) (H : Hcfg cfg) : (e : Expr) → Disc cfg e
             · refine HasHt.fwd' (by ht_arith) (by ht_arith) (by ht_arith) ?_ (by ht_arith)
               exact HasHt.conv (frt _) (by ht_arith)
   | .cond t a b => by
-      have iht := emitG_disc cfg H t
-      have iha := emitG_disc cfg H a
-      have ihb := emitG_disc cfg H b
+      have iht := emitG_disc cfg t
+      have iha := emitG_disc cfg a
+      have ihb := emitG_disc cfg b
       constructor <;> intro h <;> simp only [emitG] <;> refine HasHt.seq (iht.1 _) ?_
       · refine HasHt.ifElse (by ht_arith) (by ht_arith) (by ht_arith) ?_ ?_
         · exact HasHt.conv (iha.1 _) (by ht_arith)
@@ -130,85 +130,85 @@ theorem emitG_disc (cfg : Cfg) (H : Hcfg cfg) : (e : Expr) → Disc cfg e
         · exact HasHt.conv (iha.2 _) (by ht_arith)
         · exact HasHt.conv (ihb.2 _) (by ht_arith)
   | .comma a b => by
-      have iha := emitG_disc cfg H a
-      have ihb := emitG_disc cfg H b
+      have iha := emitG_disc cfg a
+      have ihb := emitG_disc cfg b
       exact ⟨fun h => by simp only [emitG]; exact HasHt.seq (iha.2 _) (ihb.1 _),
              fun h => by simp only [emitG]; exact HasHt.seq (iha.2 _) (ihb.2 _)⟩
   | .assignId c _ r => by
-      have ih := emitG_disc cfg H r
+      have ih := emitG_disc cfg r
       have fr := foldOr_t (e := r) ih.1
       exact ⟨fun h => by simp only [emitG]; exact emitVarSetter1_t cfg c _ 0 (fun _ h' => fr h') h,
-             fun h => by simp only [emitG]; exact emitVarSetter1_f cfg H c _ (fun _ h' => fr h') h⟩
+             fun h => by simp only [emitG]; exact emitVarSetter1_f cfg c _ (fun _ h' => fr h') h⟩
   | .assignDot l _ r => by
-      have ihl := emitG_disc cfg H l
-      have ihr := emitG_disc cfg H r
+      have ihl := emitG_disc cfg l
+      have ihr := emitG_disc cfg r
       constructor <;> intro h <;> simp only [emitG, cat, if_true, Bool.false_eq_true, if_false] <;>
         (refine HasHt.seq (ihl.1 _) (HasHt.seq (ihr.1 _) ?_); ht_chain)
   | .assignIndex l m r => by
-      have ihl := emitG_disc cfg H l
-      have ihm := emitG_disc cfg H m
-      have ihr := emitG_disc cfg H r
+      have ihl := emitG_disc cfg l
+      have ihm := emitG_disc cfg m
+      have ihr := emitG_disc cfg r
       constructor <;> intro h <;> simp only [emitG, cat, if_true, Bool.false_eq_true, if_false] <;>
         (refine HasHt.seq (ihl.1 _) (HasHt.seq (ihm.1 _) (HasHt.seq (ihr.1 _) ?_)); ht_chain)
   | .assignOpId op c _ r => by
-      have ih := emitG_disc cfg H r
+      have ih := emitG_disc cfg r
       exact ⟨fun h => by simp only [emitG]; exact emitUnaryId_t cfg c false keeps1_nil (keeps1_binop op ih.1) h,
-             fun h => by simp only [emitG]; exact emitUnaryId_f cfg H c false (keeps1_binop op ih.1) h⟩
+             fun h => by simp only [emitG]; exact emitUnaryId_f cfg c false (keeps1_binop op ih.1) h⟩
   | .assignOpDot op l _ r => by
-      have ihl := emitG_disc cfg H l
-      have ih := emitG_disc cfg H r
+      have ihl := emitG_disc cfg l
+      have ih := emitG_disc cfg r
       exact ⟨fun h => by simp only [emitG]; exact emitUnaryDot_t cfg false ihl.1 keeps1_nil (keeps1_binop op ih.1) h,
              fun h => by simp only [emitG]; exact emitUnaryDot_f cfg false ihl.1 (keeps1_binop op ih.1) h⟩
   | .assignOpIndex op l m r => by
-      have ihl := emitG_disc cfg H l
-      have ihm := emitG_disc cfg H m
-      have ih := emitG_disc cfg H r
+      have ihl := emitG_disc cfg l
+      have ihm := emitG_disc cfg m
+      have ih := emitG_disc cfg r
       exact ⟨fun h => by simp only [emitG]; exact emitUnaryIndex_t cfg false ihl.1 ihm.1 keeps1_nil (keeps1_binop op ih.1) h,
              fun h => by simp only [emitG]; exact emitUnaryIndex_f cfg false ihl.1 ihm.1 (keeps1_binop op ih.1) h⟩
   | .assignLogId op c _ r => by
-      have ih := emitG_disc cfg H r
+      have ih := emitG_disc cfg r
       have fr := foldOr_t (e := r) ih.1
       exact ⟨fun h => by simp only [emitG]; exact emitAssignLog_t op (emitVarRef_ht cfg c) fr h,
              fun h => by simp only [emitG]; exact emitAssignLog_f op (emitVarRef_ht cfg c) fr h⟩
   | .assignLogDot op l _ r => by
-      have ihl := emitG_disc cfg H l
-      have ih := emitG_disc cfg H r
+      have ihl := emitG_disc cfg l
+      have ih := emitG_disc cfg r
       have href : ∀ h, HasHt (.seq (emitG cfg l true) (.ins ⟨strictName cfg "getPropRef", 0, 1, 1, 0, false⟩)) h h := by
         intro h; refine HasHt.seq (ihl.1 _) ?_; ht_chain
       exact ⟨fun h => by simp only [emitG]; exact emitAssignLog_t op href ih.1 h,
              fun h => by simp only [emitG]; exact emitAssignLog_f op href ih.1 h⟩
   | .assignLogIndex op l m r => by
-      have ihl := emitG_disc cfg H l
-      have ihm := emitG_disc cfg H m
-      have ih := emitG_disc cfg H r
+      have ihl := emitG_disc cfg l
+      have ihm := emitG_disc cfg m
+      have ih := emitG_disc cfg r
       have href : ∀ h, HasHt (cat [emitG cfg l true, emitG cfg m true,
           .ins ⟨strictName cfg "_getElemRef", 0, 2, 2, 0, false⟩]) h h := by
         intro h; simp only [cat]; refine HasHt.seq (ihl.1 _) (HasHt.seq (ihm.1 _) ?_); ht_chain
       exact ⟨fun h => by simp only [emitG]; exact emitAssignLog_t op href ih.1 h,
              fun h => by simp only [emitG]; exact emitAssignLog_f op href ih.1 h⟩
   | .dot e _ => by
-      have ih := emitG_disc cfg H e
+      have ih := emitG_disc cfg e
       constructor <;> intro h <;> simp only [emitG, cat, popUnless, if_true, Bool.false_eq_true, if_false] <;>
         (refine HasHt.seq (ih.1 _) ?_; ht_chain)
   | .index e m => by
-      have ihe := emitG_disc cfg H e
-      have ihm := emitG_disc cfg H m
+      have ihe := emitG_disc cfg e
+      have ihm := emitG_disc cfg m
       constructor <;> intro h <;> simp only [emitG, cat, popUnless, if_true, Bool.false_eq_true, if_false] <;>
         (refine HasHt.seq (ihe.1 _) (HasHt.seq (ihm.1 _) ?_); ht_chain)
   | .callDot l _ a => by
-      have ihl := emitG_disc cfg H l
-      have iha := emitArgs_ht cfg H a
+      have ihl := emitG_disc cfg l
+      have iha := emitArgs_ht cfg a
       constructor <;> intro h <;> simp only [emitG, cat, popUnless, if_true, Bool.false_eq_true, if_false] <;>
         (refine HasHt.seq (ihl.1 _) (HasHt.seq (k1 := h + 2) (by ht_chain) (HasHt.seq (iha _) ?_)); ht_chain)
   | .callIndex l m a => by
-      have ihl := emitG_disc cfg H l
-      have ihm := emitG_disc cfg H m
-      have iha := emitArgs_ht cfg H a
+      have ihl := emitG_disc cfg l
+      have ihm := emitG_disc cfg m
+      have iha := emitArgs_ht cfg a
       constructor <;> intro h <;> simp only [emitG, cat, popUnless, if_true, Bool.false_eq_true, if_false] <;>
         (refine HasHt.seq (ihl.1 _) (HasHt.seq (ihm.1 _) (HasHt.seq (k1 := h + 2) (by ht_chain) (HasHt.seq (iha _) ?_)));
          ht_chain)
   | .callId c _ a => by
-      have iha := emitArgs_ht cfg H a
+      have iha := emitArgs_ht cfg a
       have hc : ∀ h, HasHt (match c with
             | .global => Code.ins ⟨"loadDynamicCallee", 0, 0, 0, 2, false⟩
             | .dynBound => .ins ⟨"loadMixed", 1, 0, 0, 2, false⟩
@@ -221,64 +221,64 @@ theorem emitG_disc (cfg : Cfg) (H : Hcfg cfg) : (e : Expr) → Disc cfg e
       constructor <;> intro h <;> simp only [emitG, cat, popUnless, if_true, Bool.false_eq_true, if_false] <;>
         (refine HasHt.seq (hc _) (HasHt.seq (iha _) ?_); ht_chain)
   | .callOther f a => by
-      have ihf := emitG_disc cfg H f
-      have iha := emitArgs_ht cfg H a
+      have ihf := emitG_disc cfg f
+      have iha := emitArgs_ht cfg a
       constructor <;> intro h <;> simp only [emitG, cat, popUnless, if_true, Bool.false_eq_true, if_false] <;>
         (refine HasHt.seq (k1 := h + 1) (by ht_chain) (HasHt.seq (ihf.1 _) (HasHt.seq (iha _) ?_)); ht_chain)
   | .new f a => by
-      have ihf := emitG_disc cfg H f
-      have iha := emitArgs_ht cfg H a
+      have ihf := emitG_disc cfg f
+      have iha := emitArgs_ht cfg a
       constructor <;> intro h <;> simp only [emitG, cat, popUnless, if_true, Bool.false_eq_true, if_false] <;>
         (refine HasHt.seq (ihf.1 _) (HasHt.seq (iha _) ?_); ht_chain)
   | .array els => by
-      have ih := emitElems_ht cfg H els
+      have ih := emitElems_ht cfg els
       constructor <;> intro h <;> simp only [emitG, cat, popUnless, if_true, Bool.false_eq_true, if_false] <;>
         (refine HasHt.seq (k1 := h + 1) (by ht_chain) (HasHt.seq (ih _) ?_); ht_chain)
   | .object ps => by
-      have ih := emitProps_ht cfg H ps
+      have ih := emitProps_ht cfg ps
       constructor <;> intro h <;> simp only [emitG, cat, popUnless, if_true, Bool.false_eq_true, if_false] <;>
         (refine HasHt.seq (k1 := h + 1) (by ht_chain) (HasHt.seq (ih _) ?_); ht_chain)
   | .template head first rest tail => by
-      have ihf := emitG_disc cfg H first
-      have ihq := emitQuasis_ht cfg H rest
+      have ihf := emitG_disc cfg first
+      have ihq := emitQuasis_ht cfg rest
       constructor <;> intro h <;> cases head <;> cases tail <;>
         simp only [emitG, cat, onlyIf, popUnless, if_true, Bool.false_eq_true, if_false]
       all_goals
         first
         | (refine HasHt.seq HasHt.nil (HasHt.seq (ihf.1 _) (HasHt.seq (k1 := h + 1) (by ht_chain) (HasHt.seq (ihq _) ?_))); ht_chain)
         | (refine HasHt.seq (k1 := h + 1) (by ht_chain) (HasHt.seq (ihf.1 _) (HasHt.seq (k1 := h + 2) (by ht_chain) (HasHt.seq (ihq _) ?_))); ht_chain)
-theorem emitArgs_ht (cfg : Cfg) (H : Hcfg cfg) : (a : Args) → ∀ h, HasHt (emitArgs cfg a) h (h + argsLen a)
+theorem emitArgs_ht (cfg : Cfg) : (a : Args) → ∀ h, HasHt (emitArgs cfg a) h (h + argsLen a)
   | .nil => fun h => by simp only [emitArgs, argsLen]; exact HasHt.nil
   | .cons e rest => fun h => by
-      have ihe := emitG_disc cfg H e
-      have ihr := emitArgs_ht cfg H rest
+      have ihe := emitG_disc cfg e
+      have ihr := emitArgs_ht cfg rest
       simp only [emitArgs, argsLen]
       exact HasHt.seq (ihe.1 _) (HasHt.conv (ihr _) (by omega))
-theorem emitElems_ht (cfg : Cfg) (H : Hcfg cfg) : (els : Elems) → ∀ h, HasHt (emitElems cfg els) (h + 1) (h + 1)
+theorem emitElems_ht (cfg : Cfg) : (els : Elems) → ∀ h, HasHt (emitElems cfg els) (h + 1) (h + 1)
   | .nil => fun h => by simp only [emitElems]; exact HasHt.nil
   | .hole rest => fun h => by
-      have ihr := emitElems_ht cfg H rest
+      have ihr := emitElems_ht cfg rest
       simp only [emitElems, cat]
       refine HasHt.seq (k1 := h + 2) (by ht_chain) (HasHt.seq (k1 := h + 1) (by ht_chain) (HasHt.seq (ihr _) HasHt.nil))
   | .cons e rest => fun h => by
-      have ihe := emitG_disc cfg H e
+      have ihe := emitG_disc cfg e
       have fe := foldOr_t (e := e) ihe.1
-      have ihr := emitElems_ht cfg H rest
+      have ihr := emitElems_ht cfg rest
       simp only [emitElems, cat]
       refine HasHt.seq (fe _) (HasHt.seq (k1 := h + 1) (by ht_chain) (HasHt.seq (ihr _) HasHt.nil))
-theorem emitProps_ht (cfg : Cfg) (H : Hcfg cfg) : (ps : Props) → ∀ h, HasHt (emitProps cfg ps) (h + 1) (h + 1)
+theorem emitProps_ht (cfg : Cfg) : (ps : Props) → ∀ h, HasHt (emitProps cfg ps) (h + 1) (h + 1)
   | .nil => fun h => by simp only [emitProps]; exact HasHt.nil
   | .keyed _ v rest => fun h => by
-      have ihv := emitG_disc cfg H v
+      have ihv := emitG_disc cfg v
       have fv := foldOr_t (e := v) ihv.1
-      have ihr := emitProps_ht cfg H rest
+      have ihr := emitProps_ht cfg rest
       simp only [emitProps, cat]
       refine HasHt.seq (fv _) (HasHt.seq (k1 := h + 1) (by ht_chain) (HasHt.seq (ihr _) HasHt.nil))
   | .computed k v rest => fun h => by
-      have ihk := emitG_disc cfg H k
-      have ihv := emitG_disc cfg H v
+      have ihk := emitG_disc cfg k
+      have ihv := emitG_disc cfg v
       have fv := foldOr_t (e := v) ihv.1
-      have ihr := emitProps_ht cfg H rest
+      have ihr := emitProps_ht cfg rest
       simp only [emitProps]
       split
       · simp only [cat]
@@ -286,11 +286,11 @@ theorem emitProps_ht (cfg : Cfg) (H : Hcfg cfg) : (ps : Props) → ∀ h, HasHt 
       · simp only [cat]
         refine HasHt.seq (ihk.1 _) (HasHt.seq (k1 := h + 2) (by ht_chain) (HasHt.seq (fv _)
           (HasHt.seq (k1 := h + 1) (by ht_chain) (HasHt.seq (ihr _) HasHt.nil))))
-theorem emitQuasis_ht (cfg : Cfg) (H : Hcfg cfg) : (q : Quasis) → ∀ h, HasHt (emitQuasis cfg q) h (h + quasisCount q)
+theorem emitQuasis_ht (cfg : Cfg) : (q : Quasis) → ∀ h, HasHt (emitQuasis cfg q) h (h + quasisCount q)
   | .nil => fun h => by simp only [emitQuasis, quasisCount]; exact HasHt.nil
   | .cons ne e rest => fun h => by
-      have ihe := emitG_disc cfg H e
-      have ihr := emitQuasis_ht cfg H rest
+      have ihe := emitG_disc cfg e
+      have ihr := emitQuasis_ht cfg rest
       cases ne <;> simp only [emitQuasis, quasisCount, cat, onlyIf, if_true, Bool.false_eq_true, if_false]
       · refine HasHt.seq HasHt.nil (HasHt.seq (ihe.1 _) (HasHt.seq (k1 := h + 1) (by ht_chain)
           (HasHt.seq (HasHt.conv (ihr _) (by omega)) HasHt.nil)))
